@@ -132,18 +132,11 @@ def execute(ctx, c, r1, r2, opts):
     return ob
 
 
-def run(ctx):
-    out = os.path.join(ctx.scratch, "configs.ndjson")
-    ctx.mc("MC_FileLayout", "MC_FileLayout.cfg", env={"OUT_FILE": out}, workers=8, timeout=3000)
-    with open(out) as f:
-        cfgs = [json.loads(ln) for ln in f if ln.strip()]
-    ctx.extra["configurations_enumerated_by_TLC"] = len(cfgs)
-    rng = ctx.rng
-    if ctx.quick:
-        with_redirect = [c for c in cfgs if c["redirect"] != "none"]
-        cfgs = rng.sample([c for c in cfgs if c["redirect"] == "none"], 230) + rng.sample(with_redirect, min(60, len(with_redirect)))
-    r1, r2 = make_reads(rng, 7)
-    opts = ["-a", AD, "-u", "1"]
+OPTS = ["-a", AD, "-u", "1"]
+
+
+def observe_all(ctx, cfgs, r1, r2):
+    opts = OPTS
     # reference: plain FASTQ, one core, plain output
     refs = {}
     for paired, redir in ((False, "none"), (True, "none"), (False, ".fastq")):
@@ -161,16 +154,36 @@ def run(ctx):
         ev.append(dict(id=len(ev), cfg=c, ref1=refs[rk][0], ref2=refs[rk][1], exit=o["exit"], formats=o["formats"],
                        redirect_format=o.get("redirect_format", "none"),
                        out1=o["out1"], out2=o["out2"], argv=o["argv"], note=o.get("note", "")))
+    return ev
+
+
+def judge(ctx, ev, r1, r2):
     res = ctx.validate("Trace_Layout", "Trace_Layout.cfg", [{k: v for k, v in e.items() if k not in ("argv", "note")} for e in ev])
     for i, clauses in res.items():
         e = ev[i]
         obs = dict(cfg=e["cfg"], argv=e["argv"], exit=e["exit"], formats=e["formats"], note=e["note"], records_out=len(e["out1"]))
+        case = dict(obs, reads=[r1, r2])
         for c in clauses:
             if c == "RunSucceeds" and e["cfg"]["infmt"] == "fasta" and e["cfg"]["inlayout"] == "interleaved" and e["cfg"]["cores"] > 1 \
                     and "has no partner" in e["note"]:
-                ctx.violation(c, "C19:RunSucceeds:interleaved-fasta-input-with-several-cores", obs, case=obs)
+                ctx.violation(c, "C19:RunSucceeds:interleaved-fasta-input-with-several-cores", obs, case=case)
                 continue
-            ctx.violation(c, f"C19:{c}:in={e['cfg']['infmt']}:out={e['cfg']['outname']}{'/' + e['cfg']['outcont'] if c.startswith('OutFormat') else ''}:cores={e['cfg']['cores']}", obs, case=obs)
+            ctx.violation(c, f"C19:{c}:in={e['cfg']['infmt']}:out={e['cfg']['outname']}{'/' + e['cfg']['outcont'] if c.startswith('OutFormat') else ''}:cores={e['cfg']['cores']}", obs, case=case)
+
+
+def run(ctx):
+    out = os.path.join(ctx.scratch, "configs.ndjson")
+    ctx.mc("MC_FileLayout", "MC_FileLayout.cfg", env={"OUT_FILE": out}, workers=8, timeout=3000)
+    with open(out) as f:
+        cfgs = [json.loads(ln) for ln in f if ln.strip()]
+    ctx.extra["configurations_enumerated_by_TLC"] = len(cfgs)
+    rng = ctx.rng
+    if ctx.quick:
+        with_redirect = [c for c in cfgs if c["redirect"] != "none"]
+        cfgs = rng.sample([c for c in cfgs if c["redirect"] == "none"], 230) + rng.sample(with_redirect, min(60, len(with_redirect)))
+    r1, r2 = make_reads(rng, 7)
+    ev = observe_all(ctx, cfgs, r1, r2)
+    judge(ctx, ev, r1, r2)
     ctx.extra["configurations_executed"] = len(ev)
     ctx.extra["multi_core_virtual"] = sum(1 for e in ev if e["cfg"]["cores"] > 1)
     for e in ev[:: max(1, len(ev) // 4)][:4]:
@@ -180,6 +193,15 @@ def run(ctx):
 
 
 def replay(ctx, path):
+    """Re-execute the stored configuration (and the plain reference runs) on the stored reads and judge it again."""
     rp = json.load(open(path))
-    print(json.dumps(rp["observation"], indent=1)[:3000])
-    ctx.violation(rp["clause"], rp["signature"], rp["observation"])
+    case = rp.get("case") or {}
+    if "reads" not in case:
+        print("replay: this file predates re-executable replays; stored observation:")
+        print(json.dumps(rp["observation"], indent=1)[:3000])
+        raise SystemExit(2)
+    r1 = [tuple(x) for x in case["reads"][0]]
+    r2 = [tuple(x) for x in case["reads"][1]]
+    ev = observe_all(ctx, [case["cfg"]], r1, r2)
+    judge(ctx, ev, r1, r2)
+    print(f"replay: {ev[0]['argv']} re-executed: exit={ev[0]['exit']} formats={ev[0]['formats']}; {len(ctx.violations)} clause(s) rejected")
